@@ -144,7 +144,7 @@ def jobs(tier):
                 continue
             stubs, post = spec_for(op, a, m, tr)
             con = Contract(comb_requires(), R('g_aturn == 0 && g_acalled[0] == 0 && g_acalled[1] == 0', 'act-pre'),
-                           Clause('assigns', 'IT_FIELDS(in), g_turn, g_pos, g_done, g_iter, g_last, g_called, g_ok, g_len, g_ncalls, g_ae, g_re, g_lp, vf_exc, vf_exc_counter, g_exc_obj, g_exc_type, '
+                           Clause('assigns', 'IT_FIELDS(in), g_turn, g_pos, g_done, g_iter, g_last, g_called, g_ok, g_len, g_ncalls, g_ae, g_re, g_lp, g_cur, vf_exc, vf_exc_counter, g_exc_obj, g_exc_type, '
                                   'g_aturn, g_acalled, g_aret, g_sb_off, g_se_off' + (', g_sb_byte, g_sb_line, g_sb_col' if tr == 'eager' else '')))
             for c in comb_common(m, props_rewind=('C02', 'C04')):
                 con.add(c)
